@@ -326,6 +326,9 @@ def r3_grid(ctx: Context) -> None:
                 if exact:
                     ctx.fail("R3.columns", "SearchSpace.__init__:column-filtered-by-upper-bound", f"`{src(rb)[:90]}` filters the arange result by an exact comparison with the upper bound: when lower + k*precision "
                              "rounds one ulp above the bound (e.g. [0, 0.3] step 0.1: 0.30000000000000004) the end point is dropped, although the range is a whole number of steps - grid and space_size lose a point", init, rb)
+                elif any(isinstance(x, ast.Call) and (dotted(x.func) or "").split(".")[-1] in ("round", "around", "round_", "rint", "floor", "ceil", "trunc", "fix") for x in ast.walk(rb)):
+                    ctx.fail("R3.columns", "SearchSpace.__init__:column-rounded", f"`{src(rb)[:90]}` rounds the arange result: the grid is no longer lower, lower+precision, ... "
+                             "(a lower bound or a precision that is not a multiple of the rounding unit moves every point, e.g. lower 0.05 with precision 0.1, or precision 0.25)", init, rb)
                 else:
                     raise AnalysisError(f"{init.loc(rb)}: the grid column `{col}` is re-bound after np.arange (`{src(rb)[:60]}`); cannot decide what is appended to the grid")
         appended = [x for x in ast.walk(loop) if isinstance(x, ast.Call) and isinstance(x.func, ast.Attribute) and x.func.attr == "append" and is_self_attr(x.func.value, init.self_name, "_param_grid")]
